@@ -32,6 +32,9 @@ type enc struct {
 	b    strings.Builder
 	fset *token.FileSet
 	info *types.Info
+	// receiver variable of the function declaration being encoded (nil outside methods / unnamed receivers)
+	recvObj  types.Object
+	recvName string
 }
 
 func (e *enc) w(toks ...string) {
@@ -118,6 +121,14 @@ func (e *enc) lhs(x ast.Expr) {
 		e.lhs(xx.X)
 		e.i(int(xx.Pos()))
 	case *ast.Ident:
+		// identifiers are resolved: one that carries the receiver's name and denotes another variable (a parameter or
+		// local that shadows the receiver) is given a name of its own
+		if e.recvObj != nil && xx.Name == e.recvName {
+			if o := e.info.Uses[xx]; o != nil && o != e.recvObj {
+				e.w("ident", hx(xx.Name+"~shadowing"))
+				return
+			}
+		}
 		e.w("ident", hx(xx.Name))
 	default:
 		e.w("oth")
@@ -281,6 +292,11 @@ func (e *enc) decl(d ast.Decl) {
 		e.i(e.line(dd.End()))
 		e.w(hx(dd.Name.Name))
 		e.doc(dd.Doc)
+		e.recvObj, e.recvName = nil, ""
+		if dd.Recv != nil && len(dd.Recv.List) > 0 && len(dd.Recv.List[0].Names) > 0 {
+			e.recvName = dd.Recv.List[0].Names[0].Name
+			e.recvObj = e.info.Defs[dd.Recv.List[0].Names[0]]
+		}
 		if dd.Recv != nil && len(dd.Recv.List) > 0 {
 			f := dd.Recv.List[0]
 			e.w("R", hx(recvSyn(f.Type)))
@@ -295,6 +311,7 @@ func (e *enc) decl(d ast.Decl) {
 		}
 		e.nodes(dd)
 	case *ast.GenDecl:
+		e.recvObj, e.recvName = nil, ""
 		e.w("GEN")
 		e.i(int(dd.Pos()))
 		e.i(int(dd.End()))
